@@ -12,6 +12,8 @@ containment of the definition the bytes name.
 import re
 
 NAMES = ["foo", "bar", "baz", "kk", "vv", "ww"]
+MNEMONICS = set("adc and asl bcc bcs beq bit bmi bne bpl brk bvc bvs clc cld cli clv cmp cpx cpy dec dex dey eor inc inx iny jmp jsr "
+                "lda ldx ldy lsr nop ora pha php pla plp rol ror rti rts sbc sec sed sei sta stx sty tax tay tsx txa txs tya".split())
 
 
 class Scope:
@@ -98,6 +100,9 @@ class Project:
     def fresh_name(self, rng, prefix="u"):
         while True:
             n = prefix + "".join(rng.choice("abcdefghjkmnpqrstxyz") for _ in range(3))
+            # a macro whose name starts with a mnemonic cannot be invoked (`rtsg()` parses as `rts g()`): not a valid name
+            if n[:3] in MNEMONICS:
+                continue
             if n not in self.used_names and n not in NAMES:
                 self.used_names.add(n)
                 return n
